@@ -45,7 +45,8 @@ META = {
                "real gateway layer (nothing stubbed below the driver): LUBA / SCI driver + protocol object with "
                "two callers, one solver-chosen written frame answered by an error status or by silence; real "
                "Tridonic driver with a sequence sleeping inside its transaction, the adapter lost and "
-               "reconnected during the sleep (or not), the other caller starting at one of five moments"],
+               "reconnected during the sleep (or not), the other caller starting at one of five moments; both "
+               "serial callers also with the same device type"],
     "stubs": ["gateway layer replaced by a recording stub with symbolic duration/outcome"],
     "outside": ["more than 3 concurrent callers", "fairness of asyncio.Lock beyond the explored bounds",
                 "interleavings inside the gateway layer (C16/C17)"],
